@@ -158,6 +158,16 @@ chk("C19",
     "invocations, thorough 40; processing settings other than the FFT length are not varied.",
     "TLA+ concurrent model checked with TLC (safety + liveness, positive + negative config); real CLI runs validated by trace validation and byte-wise output comparison", "DESIGN.md#c19")
 
+chk("C03",
+    "TLC checks for every arrangement of up to 5 recordings over 3 time-step classes x 3 policies x 4 Nyquist classes that today's "
+    "algorithm (insertion-ordered counting, first strict majority, group-by-group computation, index-map reordering) refines the "
+    "property-level result (kept set - set-valued at a majority tie -, original order, Nyquist refusal); every case is realised with "
+    "distinct seeded recordings and processed jointly under traditional / single-azimuth / RotDpp / azimuthal / diffuse-field settings, "
+    "row k compared (rtol 1e-12) with the k-th kept recording processed alone, requested frequencies, finiteness, refusals.",
+    "Trusted: TLC; spec/Pipeline.tla with Alone(i) uninterpreted (what a curve is, is C01's business); FFT length fixed at 32 768 by "
+    "short recordings. PSD processing has no time-step policy and is not covered here.",
+    "TLA+ kernel spec (Pipeline) model-checked with TLC (I => P); one implementation test per TLC case and method family", "DESIGN.md#c03")
+
 def main():
     man = dict(
         version=1,
